@@ -128,6 +128,8 @@ def cases(tier, seed):
                 out.append(c)
     # simplest first: counting law, then Poisson, then NBD
     add(_catalog_cases([0, 1, 2, 3], 5, 4, 5))
+    for ms in space.chunks(space.multisets([0, 1, 2, 3], 1, 3), 6):
+        add([dict(kind='catalog_history', msets=[list(m) for m in ms], ns=[0, 1, 2], firsts=['number_test', 'iterate', 'get_event_counts'])])
     add(_law_cases(MUS_Q, ['direct', 'scaled'], []))
     add(_law_cases(MUS_Q, ['direct', 'scaled'], FACTORS_Q, with_poisson=False))
     if tier == 'quick':
@@ -369,7 +371,60 @@ def run_catalog(case):
                   digest=h.hexdigest(), counters=counters, sample=dict(catalog_n_test=rows))
 
 
+def run_catalog_history(case):
+    """Multi-step histories: the synthetic catalogs are thinned in place between two uses of the same forecast object; the
+    N-test must always reflect the sizes the synthetic catalogs have when it is called."""
+    from csep.core import catalog_evaluations
+    site = SITES['catalog']
+    failures = []
+    h = hashlib.sha1()
+    evals = transitions = nontriv = states = 0
+    for sizes in case['msets']:
+        after = [s_ // 2 for s_ in sizes]        # events alternate magnitude 5.5 / 6.5: 'magnitude >= 6.0' keeps s//2
+        for first in case['firsts']:
+            for n in case['ns']:
+                states += 1
+                rep = dict(kind='catalog_history', msets=[sizes], ns=[n], firsts=[first])
+                fc = synthetic_forecast(sizes)
+                try:
+                    if first == 'number_test':
+                        res = catalog_evaluations.number_test(fc, observed_catalog(n), verbose=False)
+                        r1, r2, pm = ref_counts.empirical_tails(sizes, n)
+                        d1, d2 = _pair(res.quantile)
+                        judge_pair(site, d1, d2, res.observed_statistic, n, r1, r2, pm, _ncls(n, pm), failures, rep,
+                                   f'first use, sizes={sizes}', value_tol=1e-12)
+                    elif first == 'iterate':
+                        _ = [c.event_count for c in fc]
+                    elif first == 'get_event_counts':
+                        fc.get_event_counts(verbose=False)
+                    for c in fc.catalogs:
+                        c.filter('magnitude >= 6.0')
+                    res = catalog_evaluations.number_test(fc, observed_catalog(n), verbose=False)
+                    transitions += 2
+                    evals += 1
+                except Exception as e:
+                    failures.append(Fail(f'{site}|exception:{type(e).__name__}|after-history', f'{type(e).__name__}: {e} sizes={sizes} first={first}', rep))
+                    continue
+                r1, r2, pm = ref_counts.empirical_tails(after, n)
+                d1, d2 = _pair(res.quantile)
+                h.update(repr((sizes, first, n, d1, d2)).encode())
+                if pm > VISIBLE:
+                    nontriv += 1
+                before = len(failures)
+                judge_pair(site, d1, d2, res.observed_statistic, n, r1, r2, pm, _ncls(n, pm), failures, rep,
+                           f'history: {first}, then synthetic catalogs thinned in place from sizes {sizes} to {after}', value_tol=1e-12)
+                for f in failures[before:]:
+                    f['signature'] = f['signature'].rsplit('|', 1)[0] + '|after-in-place-thinning'
+                if sorted(float(x) for x in res.test_distribution) != sorted(float(x) for x in after):
+                    failures.append(Fail(f'{site}|test-distribution-not-current-sizes|after-in-place-thinning',
+                                         f'test_distribution {list(res.test_distribution)} but the synthetic catalogs now hold {after} events (history: {first}; sizes before {sizes})', rep))
+    return result(evals=evals, states=states, transitions=transitions, nontrivial=nontriv, failures=failures,
+                  digest=h.hexdigest(), sample=dict(history=case['firsts'], sizes=case['msets'][0]))
+
+
 def run_case(case):
+    if case['kind'] == 'catalog_history':
+        return run_catalog_history(case)
     if case['kind'] == 'catalog':
         if case.get('presentation') == 'as-given':
             # replay of one presentation exactly as stored (no re-sorting)
